@@ -21,13 +21,20 @@ def _one(case):
     try:
         repo = os.path.join(work, 'repo')
         subprocess.run(['rsync', '-a', '--exclude', 'target', '--exclude', '.git', REPO + '/', repo + '/'], check=True)
-        path = os.path.join(repo, case['file'])
-        src = open(path).read()
-        ms = list(re.finditer(case['find'], src))
-        if len(ms) <= case.get('nth', 0):
-            return dict(case, status='skipped', why='pattern no longer matches')
-        m = ms[case.get('nth', 0)]
-        open(path, 'w').write(src[:m.start()] + m.expand(case['replace']) + src[m.end():])
+        if 'patch' in case:
+            pr = subprocess.run(['git', 'apply', '--unsafe-paths', '--directory', repo, case['patch']], capture_output=True, text=True, cwd=work)
+            if pr.returncode != 0:
+                pr = subprocess.run(['patch', '-p1', '-s', '-i', case['patch']], capture_output=True, text=True, cwd=repo)
+                if pr.returncode != 0:
+                    return dict(case, status='skipped', why='patch no longer applies')
+        else:
+            path = os.path.join(repo, case['file'])
+            src = open(path).read()
+            ms = list(re.finditer(case['find'], src))
+            if len(ms) <= case.get('nth', 0):
+                return dict(case, status='skipped', why='pattern no longer matches')
+            m = ms[case.get('nth', 0)]
+            open(path, 'w').write(src[:m.start()] + m.expand(case['replace']) + src[m.end():])
         env = dict(os.environ, VERIF_REPO=repo, VERIF_EVIDENCE_DIR=os.path.join(work, 'ev'), VERIF_OUT_DIR=os.path.join(work, 'out'), VERIF_NOCACHE='0', VERIF_SELFTEST_CHILD='1')
         p = subprocess.run([os.path.join(VERIF, 'check'), case['property'], 'quick'], env=env, capture_output=True, text=True, timeout=900)
         keys = re.findall(r'key=(\S+)', p.stdout)
@@ -45,6 +52,20 @@ def run_corpus(prop):
     if not os.path.exists(path):
         return None
     corpus = [c for c in json.load(open(path)) if c['property'] == prop]
+    # the seeded changes of the sub-agents (must be flagged) and their behaviour-preserving refactorings (must stay silent)
+    import glob
+    for d in sorted(glob.glob(os.path.join(VERIF, 'seeded', prop + '-*'))):
+        if os.path.exists(os.path.join(d, 'patch.diff')):
+            corpus.append({'kind': 'mutant', 'property': prop, 'id': 'seed:' + os.path.basename(d), 'patch': os.path.join(d, 'patch.diff'), 'expect': None})
+    for d in sorted(glob.glob(os.path.join(VERIF, 'refactors', '*'))):
+        mp = os.path.join(d, 'meta.json')
+        if not os.path.exists(mp):
+            continue
+        meta = json.load(open(mp))
+        if meta.get('property') == prop or prop in meta.get('recheck', []):
+            if meta.get('known_imprecision', {}).get(prop):
+                continue
+            corpus.append({'kind': 'refactor', 'property': prop, 'id': 'ref:' + os.path.basename(d), 'patch': os.path.join(d, 'patch.diff')})
     if not corpus:
         return None
     with ThreadPoolExecutor(max_workers=8) as ex:
